@@ -190,6 +190,18 @@ def long_histories(draw, tier='quick'):
     return c
 
 
+def run_many(case):
+    """many atoms (atom-count dependent code paths): the C03 family of deterministic histories, inner == outer in every second case"""
+    states, inner = c03.many_history(case)
+    if case['k'] % 2 == 0:
+        inner = states.copy()
+    info = run({'states': states.tolist(), 'inner': inner.tolist(), 'residences': [0, 1, 2]})
+    N = case['atoms']
+    info['labels'] = list(info.get('labels', [])) + [f'atoms>{256 * (N // 256)}' if N % 256 else 'atoms-multiple-of-256']
+    info['count'] = N
+    return info
+
+
 SUBS = [
     Sub(name='enum-default', kind='enum', run=run, size=EO.size, case_at=EO.case_at, exhaustive=True,
         rule='complete enumeration of one-atom outer histories over <=3 sites, length 2..7 (quick) / 2..9 (thorough), inner == outer; exact comparison with the visited-site model at residence 0 and subset/monotonicity for residences 0,1,2,3,5',
@@ -200,6 +212,9 @@ SUBS = [
     Sub(name='enum-2atoms', kind='enum', run=run, size=EI2.size, case_at=_with_res(EI2), exhaustive=True,
         rule='complete enumeration of two-atom (outer, inner) histories over 2 sites, length 2..3 (quick) / 2..4 (thorough) x residences 0,1,2,3,5',
         shards={'quick': 16, 'thorough': 16}),
+    Sub(name='enum-many-atoms', kind='enum', run=run_many, size=c03.many_size, case_at=c03.many_case, exhaustive=True,
+        rule='small family, complete: deterministic histories of 255 - 700 atoms (around multiples of 256) x 3-7 frames over 3 sites (inner == outer in every second case), residences 0, 1, 2: default jumps vs the visited-site model, subset / consistency / monotonicity (each atom is one evaluation)',
+        shards={'quick': 8, 'thorough': 16}),
     Sub(name='random-long', kind='hyp', run=run, strategy=lambda tier: long_histories(tier=tier),
         rule='1-4 atoms x 2-120 (300) frames x <=6 sites, inner == outer in about half the cases, residences 0,1,2,3,5,10,50',
         n={'quick': 150, 'thorough': 4000}, shards={'quick': 8, 'thorough': 16}),
